@@ -51,36 +51,46 @@ def _fmt_dt(ts: float, fmt: str) -> str:
     return _real_dt.datetime.fromtimestamp(ts).strftime(fmt)
 
 
-def _babel(ts: float, fmt: str) -> str:
+def _babel(ts: float, fmt: str | None, d: dict) -> str:
+    """What Babel prints for the simulated instant, computed from the REAL datetime;
+    locale / timezone / default format come from the render data like the filter does."""
+    import pytz
     from babel import dates
 
     dt = _real_dt.datetime.fromtimestamp(ts, _real_dt.timezone.utc)
-    return dates.format_datetime(dt, format=fmt, locale="en_US")
+    f = fmt if fmt is not None else d.get("datetime_format", "medium")
+    return dates.format_datetime(dt, format=f, locale=d.get("locale", "en_US"),
+                                 tzinfo=pytz.timezone(d.get("timezone", "UTC")))
 
 
 # name -> (source, expected(now) -> str)   closed forms, independent of library state
 STATEFUL = {
-    "counters": ("{% increment a %}{% increment a %}{% decrement b %}{{ a }}{{ b }}", lambda now: "01-12-1"),
+    "counters": ("{% increment a %}{% increment a %}{% decrement b %}{{ a }}{{ b }}", lambda now, d: "01-12-1"),
     "cycles": ("{% cycle 'a','b','c' %}{% cycle 'a','b','c' %}{% cycle g: 1,2 %}{% cycle g: 1,2 %}{% cycle g: 1,2 %}",
-               lambda now: "ab121"),
+               lambda now, d: "ab121"),
     "offset": ("{% for i in nums limit: 2 %}{{ i }}{% endfor %}|{% for i in nums offset: continue %}{{ i }}{% endfor %}",
-               lambda now: "12|34"),
+               lambda now, d: "12|34"),
     "rbw": ("[{{ x }}][{{ cap }}]{% assign x = 'X' %}{% capture cap %}C{% endcapture %}[{{ x }}][{{ cap }}]",
-            lambda now: "[][][X][C]"),
-    "macro": ("{% call m 1 %}|{% macro m a %}M{{ a }}{% endmacro %}{% call m 2 %}", lambda now: "|M2"),
-    "inherit": ("{% extends 'mid' %}{% block b %}c{{ block.super }}{% endblock %}", lambda now: "<mA|cB>"),
-    "incpart": ("{% include 'part/count.html' %}{% include 'part/count.html' %}{% increment a %}", lambda now: "0x1y2"),
-    "renpart": ("{% render 'part/iso' %}{% render 'part/iso' %}{% increment a %}", lambda now: "01010"),
-    "loopvars": ("{% for i in (1..2) %}{{ forloop.index }}{% endfor %}{{ forloop.index }}{{ i }}", lambda now: "12"),
-    "with": ("{% with a: 1 %}{{ a }}{% endwith %}[{{ a }}]", lambda now: "1[]"),
+            lambda now, d: "[][][X][C]"),
+    "macro": ("{% call m 1 %}|{% macro m a %}M{{ a }}{% endmacro %}{% call m 2 %}", lambda now, d: "|M2"),
+    "inherit": ("{% extends 'mid' %}{% block b %}c{{ block.super }}{% endblock %}", lambda now, d: "<mA|cB>"),
+    "incpart": ("{% include 'part/count.html' %}{% include 'part/count.html' %}{% increment a %}", lambda now, d: "0x1y2"),
+    "renpart": ("{% render 'part/iso' %}{% render 'part/iso' %}{% increment a %}", lambda now, d: "01010"),
+    "loopvars": ("{% for i in (1..2) %}{{ forloop.index }}{% endfor %}{{ forloop.index }}{{ i }}", lambda now, d: "12"),
+    "with": ("{% with a: 1 %}{{ a }}{% endwith %}[{{ a }}]", lambda now, d: "1[]"),
     "time": ("{{ now | date: '%Y-%m-%d %H:%M:%S' }}|{{ today | date: '%Y-%m-%d' }}|{{ 'now' | date: '%s' }}"
              "|{{ 'today' | date: '%H:%M' }}|{{ 'now' | datetime }}|{{ 'now' | datetime: format: 'short' }}",
-             lambda now: "|".join([_fmt_dt(now, "%Y-%m-%d %H:%M:%S"), _fmt_dt(now, "%Y-%m-%d"), str(int(now)),
-                                   _fmt_dt(now, "%H:%M"), _babel(now, "medium"), _babel(now, "short")])),
-    "gvprobe": ("{{ gv }}/{{ shared.n }}/{{ shared.list | join: ',' }}", lambda now: "//"),
-    "nested": ("{% assign k = 'a' %}{{ h[k] }}{{ h['b'] }}{% for i in (1..2) %}{{ nested[i][0] }}{% endfor %}", lambda now: "1two3"),
+             lambda now, d: "|".join([_fmt_dt(now, "%Y-%m-%d %H:%M:%S"), _fmt_dt(now, "%Y-%m-%d"), str(int(now)),
+                                   _fmt_dt(now, "%H:%M"), _babel(now, None, d), _babel(now, "short", d)])),
+    "gvprobe": ("{{ gv }}/{{ shared.n }}/{{ shared.list | join: ',' }}", lambda now, d: "//"),
+    "nested": ("{% assign k = 'a' %}{{ h[k] }}{{ h['b'] }}{% for i in (1..2) %}{{ nested[i][0] }}{% endfor %}", lambda now, d: "1two3"),
+    "condmacro": ("{% if flag %}{% macro m a %}M{{ a }}{% endmacro %}{% endif %}{% call m 1 %}|"
+                  "{% if flag %}{% assign v = 'set' %}{% endif %}{{ v }}|{% unless flag %}{% increment z %}{% endunless %}{{ z }}",
+                  lambda now, d: ("M1|set|" if d["flag"] else "||01")),
+    "datefmt": ("{{ '2024-01-15 10:30' | date: '%Y/%m/%d %H:%M' }}|{{ 86400 | date: '%Y-%m-%d' }}|{{ n | plus: m }}",
+                lambda now, d: "2024/01/15 10:30|1970-01-02|" + str(d["n"] + d["m"])),
     "nowtwice": ("{{ 'now' | date: '%s' }}-{{ 'now' | date: '%s' }}-{{ now | date: '%s' }}",
-                 lambda now: f"{int(now)}-{int(now)}-{int(now)}"),
+                 lambda now, d: f"{int(now)}-{int(now)}-{int(now)}"),
 }
 NEEDS_PARTIALS = {"inherit", "incpart", "renpart"}
 
@@ -291,10 +301,14 @@ class World:
             worlds.activate(st)
 
     # ------------------------------------------------------------- calls
-    def data(self, spec: dict, fault: dict | None, tag: str):
+    def raw_data(self, spec: dict) -> dict:
         d = gprog.make_data(random.Random(spec["seed"]))
         d["nums"] = [1, 2, 3, 4]
         d.update(spec.get("extra") or {})
+        return d
+
+    def data(self, spec: dict, fault: dict | None, tag: str):
+        d = self.raw_data(spec)
         fail_at = fault["k"] if fault and fault["kind"] == "data_k" else None
         ctl = DropCtl(tag, fail_at=fail_at)
         w = wrap_data(d, spec.get("drops") or {"mode": "all"}, ctl)
@@ -393,7 +407,7 @@ class World:
         prog = h.get("prog")
         if (prog in STATEFUL and step["op"] == "render" and not fault and self.plain_env(ei)
                 and not h.get("globals") and got[0] == "ok"):
-            want = STATEFUL[prog][1](self.clock.now)
+            want = STATEFUL[prog][1](self.clock.now, self.raw_data(step["data"]))
             if got[1] != want:
                 raise Violation("closed_form", step=step["id"], prog=prog, got=got[1], expected=want)
             self.count("closed_form_ok")
@@ -555,7 +569,7 @@ def do_step(w: World, step: dict) -> None:
             raise Violation("differs_from_fresh", step=step["id"], op="oneshot", got=_short(got), expected=_short(exp))
         prog = step.get("prog")
         if prog in STATEFUL and prog not in NEEDS_PARTIALS and got[0] == "ok":
-            want = STATEFUL[prog][1](w.clock.now)
+            want = STATEFUL[prog][1](w.clock.now, w.raw_data(step["data"]))
             if got[1] != want:
                 raise Violation("closed_form", step=step["id"], prog=prog, got=got[1], expected=want)
             w.count("closed_form_ok")
